@@ -51,3 +51,92 @@ def _path_name(ex, args, kwargs, lineno):
     g = z3.Function("uf.path_name", PathT.sort(), z3.StringSort())
     ex.ufs_used.add("path_name")
     return VStr(g(args[0].t))
+
+
+# ---- native generators for opaque types (used by the CPython cross-check, pyvc/selftest.py) -----------------------
+def _register_generators():
+    import pathlib
+    from pyvc import selftest
+    selftest.OPAQUE_GENERATORS["Path"] = lambda g: pathlib.PurePosixPath(g.s() or "x")
+    selftest.OPAQUE_GENERATORS["Pattern"] = lambda g: _re.compile(_re.escape(g.s()), _re.IGNORECASE)
+
+
+_register_generators()
+
+
+# ---- re.search / re.split with capture groups (C04): the regex engine is trusted; match/no-match and the captured
+# ---- groups are uninterpreted functions of (pattern, subject); flags: none or IGNORECASE only -----------------------
+MatchT = Opaque("Match")
+
+
+def _grp(flags):
+    def g(p, s, n):
+        m = _re.search(p, s, flags)
+        return "" if m is None or m.group(n) is None else m.group(n)
+    return g
+
+
+re_group = uf("re_group", [Str, Str, Int], Str, concrete=_grp(0))
+re_group_i = uf("re_group_i", [Str, Str, Int], Str, concrete=_grp(_re.IGNORECASE))
+re_split = uf("re_split", [Str, Str], SeqOf(Str), concrete=lambda p, s: _re.split(p, s))
+
+
+def _re_flags(args, kwargs):
+    fl = args[2] if len(args) > 2 else kwargs.get("flags")
+    if fl is None:
+        return ""
+    from pyvc.ty import VConst
+    if isinstance(fl, VConst) and fl.py == _re.IGNORECASE:
+        return "_i"
+    raise Unsupported(f"re flags {fl} (only none / IGNORECASE are modelled)")
+
+
+@external("re.search")
+def _re_search(ex, args, kwargs, lineno):
+    """re.search(p, s[, re.IGNORECASE]) -> Optional[Match]; Match is the opaque term re_match(p, s)."""
+    suf = _re_flags(args, kwargs)
+    p, s = args[0], args[1]
+    if not isinstance(p, VStr) or not isinstance(s, VStr):
+        raise Unsupported("re.search on non-string arguments")
+    S = z3.StringSort()
+    hit = z3.Function(f"uf.re_search{suf}", S, S, z3.BoolSort())
+    mk_m = z3.Function(f"uf.re_match{suf}", S, S, MatchT.sort())
+    ex.ufs_used.add(f"re_search{suf}")
+    return VOpt(z3.Not(hit(p.t, s.t)), VOpaque(mk_m(p.t, s.t), MatchT), MatchT)
+
+
+@external("Match.group")
+def _match_group(ex, args, kwargs, lineno):
+    m, n = args[0], args[1]
+    t = m.t
+    S = z3.StringSort()
+    if z3.is_app(t) and t.decl().name() in ("uf.re_match", "uf.re_match_i") and isinstance(n, VInt):
+        suf = "_i" if t.decl().name().endswith("_i") else ""
+        g = z3.Function(f"uf.re_group{suf}", S, S, z3.IntSort(), S)
+        ex.ufs_used.add(f"re_group{suf}")
+        return VStr(g(t.arg(0), t.arg(1), n.t))
+    raise Unsupported("Match.group on a merged match object")
+
+
+@external("re.split")
+def _re_split(ex, args, kwargs, lineno):
+    if len(args) != 2 or kwargs:
+        raise Unsupported("re.split with maxsplit/flags")
+    S = z3.StringSort()
+    f = z3.Function("uf.re_split", S, S, z3.SeqSort(S))
+    ex.ufs_used.add("re_split")
+    return VList(Str, seq=f(args[0].t, args[1].t))
+
+
+# ---- ast traversal helpers (C01, C16, C02): the CPython traversal order/contents are trusted; a node's children and
+# ---- its walk-closure are the uninterpreted attributes `iter_children` / `walk` of the PyNode domain ----------------
+@external("ast.iter_child_nodes")
+def _ast_iter_child_nodes(ex, args, kwargs, lineno):
+    """ast.iter_child_nodes(n) -> the modelled sequence n.iter_children (direct child nodes in field order)."""
+    return ex.getattr(args[0], "iter_children")
+
+
+@external("ast.walk")
+def _ast_walk(ex, args, kwargs, lineno):
+    """ast.walk(n) -> the modelled sequence n.walk (n and all its descendants, breadth-first)."""
+    return ex.getattr(args[0], "walk")
